@@ -283,48 +283,113 @@ func expectedScheme(c *Case) (want string, among []string) {
 // ---------------------------------------------------------------------------------------------
 // features (for narrow signatures)
 
+// featureOf classifies one value by the byte class most likely to matter.
+func featureOf(v string) string {
+	switch {
+	case v == "":
+		return "empty-value"
+	case v == "." || v == "..":
+		return "dot-value"
+	case strings.Contains(v, "{") && strings.Contains(v, "}"):
+		return "placeholder-like-value"
+	case strings.Contains(v, "/"):
+		return "slash-in-value"
+	case strings.Contains(v, "?"):
+		return "question-in-value"
+	case strings.Contains(v, "#"):
+		return "hash-in-value"
+	case strings.Contains(v, "%"):
+		return "percent-in-value"
+	case needsEscape(v):
+		return "reserved-byte-in-value"
+	}
+	return "plain-values"
+}
+
+var featureRank = []string{"empty-value", "dot-value", "placeholder-like-value", "slash-in-value", "question-in-value", "hash-in-value", "percent-in-value", "reserved-byte-in-value", "plain-values"}
+
+func strongest(feats map[string]bool) string {
+	for _, f := range featureRank {
+		if feats[f] {
+			return f
+		}
+	}
+	return "plain-values"
+}
+
+// valueFeature: strongest feature among the values the templates actually use.
 func valueFeature(c *Case, ref *refURL) string {
+	used := usedNames(ref)
+	feats := map[string]bool{}
+	for _, p := range c.Params {
+		if ref == nil || used[p.Name] {
+			feats[featureOf(string(p.Value))] = true
+		}
+	}
+	return strongest(feats)
+}
+
+func usedNames(ref *refURL) map[string]bool {
 	used := map[string]bool{}
-	first := ""
 	if ref != nil {
-		for i, seg := range ref.segs {
+		for _, seg := range ref.segs {
 			for _, p := range seg {
 				if p.name != "" {
 					used[p.name] = true
-					if i == 0 && first == "" {
-						first = p.name
-					}
 				}
 			}
 		}
 	}
-	has := func(pred func(string) bool) bool {
-		for _, p := range c.Params {
-			if (ref == nil || used[p.Name]) && pred(string(p.Value)) {
-				return true
+	return used
+}
+
+// segFeature: strongest feature among the values of one template segment.
+func segFeature(seg []part, values map[string]string) string {
+	feats := map[string]bool{}
+	for _, p := range seg {
+		if p.name != "" {
+			feats[featureOf(values[p.name])] = true
+		}
+	}
+	return strongest(feats)
+}
+
+// culpritFeature looks for a single value that alone (all others replaced by a plain word)
+// still breaks the shape of the path, and returns its feature; otherwise the strongest feature.
+func culpritFeature(c *Case, ref *refURL, values map[string]string, ord []int) string {
+	if len(ref.segs) > 0 {
+		allEmptyFirst := true
+		for _, p := range ref.segs[0] {
+			if p.name == "" || values[p.name] != "" {
+				allEmptyFirst = false
 			}
 		}
-		return false
+		if allEmptyFirst {
+			return "empty-value-in-first-segment"
+		}
 	}
-	switch {
-	case has(func(v string) bool { return v == "" }):
-		return "empty-value"
-	case has(func(v string) bool { return v == "." || v == ".." }):
-		return "dot-value"
-	case has(func(v string) bool { return strings.Contains(v, "{") && strings.Contains(v, "}") }):
-		return "placeholder-like-value"
-	case has(func(v string) bool { return strings.Contains(v, "/") }):
-		return "slash-in-value"
-	case has(func(v string) bool { return strings.Contains(v, "?") }):
-		return "question-in-value"
-	case has(func(v string) bool { return strings.Contains(v, "#") }):
-		return "hash-in-value"
-	case has(func(v string) bool { return strings.Contains(v, "%") }):
-		return "percent-in-value"
-	case has(needsEscape):
-		return "reserved-byte-in-value"
+	used := usedNames(ref)
+	for i, p := range c.Params {
+		if !used[p.Name] {
+			continue
+		}
+		vc := *c
+		vc.Params = make([]KV, len(c.Params))
+		vv := map[string]string{}
+		for j, q := range c.Params {
+			vc.Params[j] = KV{Name: q.Name, Value: "v"}
+			if j == i {
+				vc.Params[j].Value = q.Value
+			}
+			vv[q.Name] = string(vc.Params[j].Value)
+		}
+		b := buildOnce(&vc, ord)
+		want := ref.expectedSegments(vv)
+		if b.err != "" || b.panicked != "" || b.escPath == "" || len(strings.Split(b.escPath, "/")) != len(want) {
+			return featureOf(string(p.Value))
+		}
 	}
-	return "plain-values"
+	return valueFeature(c, ref)
 }
 
 func needsEscape(v string) bool {
@@ -568,7 +633,7 @@ func judge(m *mon.M, c *Case, ref *refURL, values map[string]string, b built, or
 		return
 	}
 	if b.err != "" {
-		m.Violate("build-error/"+shapeFeature(c, ref, values, feat), "CreateHttpRequest failed: "+b.err, one)
+		m.Violate("build-error/"+culpritFeature(c, ref, values, ord), "CreateHttpRequest failed: "+b.err, one)
 		m.Class("build-error")
 		return
 	}
@@ -583,22 +648,26 @@ func judge(m *mon.M, c *Case, ref *refURL, values map[string]string, b built, or
 	switch {
 	case b.escPath == "":
 		shapeOK = false
-		m.Violate("segments-lost/"+shapeFeature(c, ref, values, feat), describe, one)
+		m.Violate("segments-lost/"+culpritFeature(c, ref, values, ord), describe, one)
 	case b.escPath[0] != '/':
 		shapeOK = false
-		m.Violate("path-not-rooted/"+shapeFeature(c, ref, values, feat), describe, one)
+		m.Violate("path-not-rooted/"+culpritFeature(c, ref, values, ord), describe, one)
 	case len(got) != len(want):
 		shapeOK = false
 		// classify: only the trailing slash differs?
 		switch {
 		case len(got) == len(want)-1 && want[len(want)-1] == "" && ref.trailing && sameDecoded(got, want[:len(want)-1]):
-			m.Violate("trailing-slash-lost/"+feat, describe, one)
+			sig := "trailing-slash-lost"
+			if len(want) >= 2 && want[len(want)-2] == "" {
+				sig += "/empty-last-segment"
+			}
+			m.Violate(sig, describe, one)
 		case len(got) == len(want)+1 && got[len(got)-1] == "" && sameDecoded(got[:len(got)-1], want):
-			m.Violate("trailing-slash-added/"+feat, describe, one)
+			m.Violate("trailing-slash-added", describe, one)
 		case len(got) > len(want):
-			m.Violate("segments-added/"+shapeFeature(c, ref, values, feat), describe, one)
+			m.Violate("segments-added/"+culpritFeature(c, ref, values, ord), describe, one)
 		default:
-			m.Violate("segments-lost/"+shapeFeature(c, ref, values, feat), describe, one)
+			m.Violate("segments-lost/"+culpritFeature(c, ref, values, ord), describe, one)
 		}
 	}
 	if shapeOK {
@@ -609,9 +678,13 @@ func judge(m *mon.M, c *Case, ref *refURL, values map[string]string, b built, or
 				continue
 			}
 			if dec != want[i] {
-				sig := "segment-value-differs/" + feat
+				sf := feat
+				if i > 0 && i-1 < len(ref.segs) {
+					sf = segFeature(ref.segs[i-1], values)
+				}
+				sig := "segment-value-differs/" + sf
 				if i > 0 && i-1 < len(ref.segs) && resubstituted(ref.segs[i-1], values, dec) {
-					sig = "value-resubstituted/" + feat
+					sig = "value-resubstituted/placeholder-like-value"
 				}
 				m.Violate(sig, fmt.Sprintf("segment %d decodes to %q, expected %q; %s", i, dec, want[i], describe), one)
 			}
@@ -621,7 +694,13 @@ func judge(m *mon.M, c *Case, ref *refURL, values map[string]string, b built, or
 		}
 	}
 	if b.fragment != "" {
-		m.Violate("fragment-introduced/"+feat, fmt.Sprintf("URL has fragment %q; %s", b.fragment, describe), one)
+		ff := feat
+		for n := range usedNames(ref) {
+			if strings.Contains(values[n], "#") {
+				ff = "hash-in-value"
+			}
+		}
+		m.Violate("fragment-introduced/"+ff, fmt.Sprintf("URL has fragment %q; %s", b.fragment, describe), one)
 	}
 	_ = wantPath
 
@@ -668,7 +747,7 @@ func judge(m *mon.M, c *Case, ref *refURL, values map[string]string, b built, or
 		}
 		for name, gv := range gotQ {
 			if _, ok := expQ[name]; !ok {
-				m.Violate("query-param-invented/"+feat, fmt.Sprintf("query name %q=%q was set by nobody; raw %q", name, gv, b.rawQuery), one)
+				m.Violate("query-param-invented", fmt.Sprintf("query name %q=%q was set by nobody; raw %q", name, gv, b.rawQuery), one)
 			}
 		}
 	}
@@ -707,21 +786,6 @@ func judge(m *mon.M, c *Case, ref *refURL, values map[string]string, b built, or
 			m.Violate(sig, fmt.Sprintf("transport schemes %v, operation schemes %v: chosen %q", c.TSchemes, c.OSchemes, b.scheme), one)
 		}
 	}
-}
-
-func shapeFeature(c *Case, ref *refURL, values map[string]string, feat string) string {
-	if feat == "empty-value" && len(ref.segs) > 0 {
-		allEmptyFirst := true
-		for _, p := range ref.segs[0] {
-			if p.name == "" || values[p.name] != "" {
-				allEmptyFirst = false
-			}
-		}
-		if allEmptyFirst {
-			return "empty-value-in-first-segment"
-		}
-	}
-	return feat
 }
 
 func sameDecoded(got, want []string) bool {
